@@ -157,6 +157,15 @@ def cases(tier, seed):
                         if kind == "rel" and mnem != "LBNE" and n > 120:
                             continue
                         yield {"shape": "ref", "mnem": mnem, "kind": kind, "dir": direction, "n": n, "k": 0, "org": org, "ind": ind, "org_after": True}
+    # (b6) the target label spelt like a register name or with a leading digit (legal label names; only A, B, D before ,PCR are not)
+    for tname in ("X", "Y", "U", "S", "PC", "DP", "CC", "PCR", "9LIVES", "2ND"):
+        for mnem, kind in (("LEAX", "pcr"), ("LDY", "pcr"), ("BNE", "rel"), ("LBRA", "rel")):
+            for direction in ("fwd", "bwd"):
+                for n in (0, 5, 126, 130):
+                    for ind in ((False, True) if kind == "pcr" else (False,)):
+                        if kind == "rel" and mnem == "BNE" and n > 120:
+                            continue
+                        yield {"shape": "ref", "mnem": mnem, "kind": kind, "dir": direction, "n": n, "k": 0, "org": None, "ind": ind, "tname": tname}
     # (c) bare numeric n,PCR
     for mnem in ("LDA", "LDY", "LEAX", "LDX"):
         for v in c01.V16:
@@ -191,6 +200,9 @@ def build(case):
     sh = case["shape"]
     if sh == "ref":
         lines = prog_ref(case["mnem"], case["kind"], case["dir"], case["n"], case["k"], case["org"], case["ind"], case.get("filler", "rmb"))
+        if case.get("tname"):
+            import re as _re
+            lines = [_re.sub(r"\bT1\b", case["tname"], ln) for ln in lines]
         if case.get("org_after"):
             lines += [" ORG $4000", "Z9 NOP"]
         return lines
@@ -226,7 +238,8 @@ def refs_of(case):
     """[(statement label, mnemonic, kind, target label, k, indirect)] to verify"""
     sh = case["shape"]
     if sh == "ref":
-        return [("T1" if case["dir"] == "self" else "S1", case["mnem"], case["kind"], "T1", case["k"], case["ind"])]
+        t = case.get("tname", "T1")
+        return [(t if case["dir"] == "self" else "S1", case["mnem"], case["kind"], t, case["k"], case["ind"])]
     if sh == "mixed":
         return [("S1", "LDX", "pcr", "T1", case.get("k", 0), False)]
     if sh == "two":
@@ -242,7 +255,7 @@ def cell_of(case, mnem, kind, dclass):
     if sh == "ref":
         return "{}|{}{}|{}|{}|k={}|{}{}".format(mnem, kind, ".ind" if case["ind"] else "", case["dir"], dclass,
                                                case["k"], "org" if case["org"] is not None else "noorg",
-                                               ("" if case.get("filler", "rmb") == "rmb" else "." + case["filler"]) + (".then-org" if case.get("org_after") else ""))
+                                               ("" if case.get("filler", "rmb") == "rmb" else "." + case["filler"]) + (".then-org" if case.get("org_after") else "") + (".name={}".format(case["tname"]) if case.get("tname") else ""))
     if sh == "num":
         return "{}|num{}|{}|{}".format(mnem, ".ind" if case["ind"] else "", c01.vclass(case["v"]), case["sp"])
     if sh == "mixed":
@@ -380,7 +393,7 @@ def _d(x):
 def describe(tier):
     return {
         "alphabet": "(a) 19 short + 19 long branches, forward/backward/self, RMB filler n; targets L, L+-k; with ORG at 6 origins; "
-                    "(b) every indexed-capable mnemonic with L,PCR and [L,PCR], same sweeps; (b2) distances 100..140 built from constant-offset indexed / extended instructions instead of RMB; (b3) spans mixing 0-4 constant-offset indexed statements, 0-3 other unsized PCR statements (near or far) and RMB filler; (b3k) the same with label+-n (n = 4, 8, 16) as the target; (b5) a branch / label,PCR statement directly followed by an ORG; (b4) the same with 1 or 3 statements of each of 33 size-computation paths (indexed forms, immediates, direct/extended, stack lists, FCB/FDB single and lists, FCC, RMB, long branches) in the span; (c) bare n,PCR over V16 x 3 spellings; "
+                    "(b) every indexed-capable mnemonic with L,PCR and [L,PCR], same sweeps; (b2) distances 100..140 built from constant-offset indexed / extended instructions instead of RMB; (b3) spans mixing 0-4 constant-offset indexed statements, 0-3 other unsized PCR statements (near or far) and RMB filler; (b6) target labels named X Y U S PC DP CC PCR 9LIVES 2ND; (b3k) the same with label+-n (n = 4, 8, 16) as the target; (b5) a branch / label,PCR statement directly followed by an ORG; (b4) the same with 1 or 3 statements of each of 33 size-computation paths (indexed forms, immediates, direct/extended, stack lists, FCB/FDB single and lists, FCC, RMB, long branches) in the span; (c) bare n,PCR over V16 x 3 spellings; "
                     "(d) two PCR statements (and PCR + short branch) referencing any of 5 labels around them, both gaps over 112..132"
                     + ("; three PCR statements, 6 reference shapes, three gaps over 112..132" if tier == "thorough" else ""),
         "bound": "n in 0..140 for {} mnemonics, boundary band {} for the rest; +-10 around 32767 for {}".format(
